@@ -49,6 +49,8 @@ type pureBody struct {
 	Method string            `json:"method"`
 }
 
+var pureInject bool
+
 func buildPureContainer(cfg pureCfg) *restful.Container {
 	c := restful.NewContainer()
 	if cfg.Router == "jsr311" {
@@ -79,6 +81,11 @@ func buildPureContainer(cfg pureCfg) *restful.Container {
 		}
 		if a := req.Attribute("rid"); a != nil {
 			b.Attr = fmt.Sprint(a)
+		}
+		if pureInject {
+			// a handler may add to the parameters of ITS request (sequential phases only: a map shared
+			// between requests would make this a fatal concurrent map write)
+			req.PathParameters()["zz-injected"] = b.Rid
 		}
 		resp.WriteAsJson(b)
 	}
@@ -241,6 +248,7 @@ func runPure(planPath, outPath string, seed int64) {
 		emit := func(k pureKey, phase string, trace bool, proj pureProj, iso bool) {
 			tw.emit(map[string]interface{}{"e": "pobs", "key": k.String(), "phase": phase, "trace": trace, "proj": proj, "iso": iso})
 		}
+		pureInject = true
 		for _, k := range keys {
 			rid++
 			proj, iso := pureObserve(buildPureContainer(cfg), k, fmt.Sprint(rid))
@@ -257,6 +265,7 @@ func runPure(planPath, outPath string, seed int64) {
 			emit(k, "seq", i >= p.History/2, proj, iso)
 		}
 		restful.EnableTracing(false)
+		pureInject = false
 		for b := 0; b < p.Batches; b++ {
 			tracing := b%2 == 1
 			restful.EnableTracing(tracing)
